@@ -30,8 +30,14 @@ impl SrDev {
     pub fn contents(&self) -> Vec<f64> {
         self.init.iter().chain(self.pushes.iter()).cloned().collect()
     }
+    pub fn try_build(&self) -> Option<SurfaceDeviationSet2> {
+        crate::engine::guarded(|| self.build()).ok()
+    }
     pub fn key(&self) -> (Vec<i64>, i64, i64) {
-        let s = self.build();
+        let s = match self.try_build() {
+            Some(s) => s,
+            None => return (self.contents().iter().map(|v| (v * 10.0) as i64).collect(), -2, -2),
+        };
         (self.contents().iter().map(|v| (v * 10.0) as i64).collect(), s.max().map(|d| d.surface.point.x as i64).unwrap_or(-1), s.min().map(|d| d.surface.point.x as i64).unwrap_or(-1))
     }
 }
@@ -76,7 +82,10 @@ impl Model for DevModel {
     }
     fn properties(&self) -> Vec<Property<Self>> {
         vec![Property::always("extremes track the contents", |_, s: &SrDev| {
-            let set = s.build();
+            let set = match s.try_build() {
+                Some(x) => x,
+                None => return false,
+            };
             let vals = s.contents();
             if vals.is_empty() {
                 return set.max().is_none() && set.min().is_none() && set.symmetrical_zone_size() == 0.0;
